@@ -67,16 +67,16 @@ theorem fsub_self (f : Fmt) (a : Nat) : fsub f a a = 0 := by
   unfold fsub; rw [Nat.sub_self]; exact roundNE_zero f _
 
 /-- the fraction loop is skipped for an integral float -/
-theorem genFraction_integral {f : Fmt} (h : FOK f) (r : Nat) {n : Nat} (hn : n < 2 * 2 ^ (f.p - 1)) :
-    genFraction f r (ofNat f n) = .ok ([], [], false) := by
+theorem genFraction_integral (cf : Bool) {f : Fmt} (h : FOK f) (r : Nat) {n : Nat} (hn : n < 2 * 2 ^ (f.p - 1)) :
+    genFraction cf f r (ofNat f n) = .ok ([], [], false) := by
   unfold genFraction
   simp only [ffloor_ofNat h hn, fsub_self]
   rw [if_neg (Nat.not_lt_zero _)]
 
 /-- **integer exactness on the full model**: digits of an integral float below `2^p` -/
-theorem generate_integral {f : Fmt} (h : FOK f) (hp : f.p ≤ halfSize) {r : Nat} (hr : 2 ≤ r) (hr36 : r ≤ 36)
+theorem generate_integral (cf : Bool) {f : Fmt} (h : FOK f) (hp : f.p ≤ halfSize) {r : Nat} (hr : 2 ≤ r) (hr36 : r ≤ 36)
     (hrp : r < 2 * 2 ^ (f.p - 1)) {n : Nat} (h0 : 0 < n) (hn : n < 2 * 2 ^ (f.p - 1)) :
-    generate f r (ofNat f n) = .ok ⟨(toDigits r n).map digitChar, [], []⟩ := by
+    generate cf f r (ofNat f n) = .ok ⟨(toDigits r n).map digitChar, [], []⟩ := by
   have hexp := exponent_fdiv_ofNat h hn hrp (by omega : 0 < r)
   have hfuel : n < 2 ^ halfSize := by
     have h2 : 2 * 2 ^ (f.p - 1) = 2 ^ f.p := by
@@ -88,7 +88,7 @@ theorem generate_integral {f : Fmt} (h : FOK f) (hp : f.p ≤ halfSize) {r : Nat
     rw [if_neg (by omega)]
     rfl
   unfold generate
-  rw [genFraction_integral h r hn]
+  rw [genFraction_integral cf h r hn]
   simp only [Res.bind, ffloor_ofNat h hn, Bool.false_eq_true, ↓reduceIte, genInteger, hpad,
     digitLoop_ofNat h hr hr36 hrp halfSize n [] h0 hn hfuel, List.append_nil]
 
